@@ -199,6 +199,34 @@ CURATED: Dict[str, Spec] = {
         )),
         ("O", A()),
     ),
+    # a compound key re-used along one entry path (E > D > E), a child with its parent's key (Q > Q), a child with
+    # the machine's own id as key (m): anything that indexes states by bare key instead of id goes wrong here
+    "CUR15": C(
+        ("O", A()),
+        ("E", C(
+            ("D", C(
+                ("E", C(("x", A()), ("y", A()))),
+                ("z", A()),
+            )),
+            ("w", A()),
+        )),
+        ("Q", C(("Q", C(("q1", A()), ("q2", A()))), ("r", A()))),
+        ("m", C(("m1", A()), ("m2", A()))),
+    ),
+    # history of a COMPOUND state whose remembered configuration has several leaves sharing an ancestor strictly
+    # below the history's parent (a parallel state inside the compound)
+    "CUR16": C(
+        ("W", C(
+            ("idle", A()),
+            ("run", P(
+                ("r1", C(("a", A()), ("b", A()))),
+                ("r2", C(("c", A()), ("d", F()))),
+            )),
+            ("hd", HD()),
+            ("hs", HS()),
+        )),
+        ("O", A()),
+    ),
     "CUR9": C(
         ("W", C(
             ("s1", A()),
